@@ -413,6 +413,10 @@ pub struct GenCfg {
     pub profile: Profile,
     pub mainnet: bool,
     pub max_txs: usize,
+    /// Some(true): every tx uses min_utxo; Some(false): none does; None: profile default
+    pub force_min_utxo: Option<bool>,
+    /// more (and multi-field) cardano:: directives
+    pub rich_directives: bool,
 }
 
 fn small_q(t: &mut Tape, params: &mut Vec<(String, Ty)>, hint: &str) -> Q {
@@ -511,7 +515,10 @@ fn gen_tx(t: &mut Tape, cfg: &GenCfg, p: &mut Program, k: usize) -> TxSpec {
         _ => 1 + t.index(4),
     };
     let out_names: Vec<String> = (0..nout).map(|i| format!("out{}", i)).collect();
-    let use_min_utxo = matches!(cfg.profile, Profile::Fee | Profile::Rich) && t.chance(1, 3);
+    let use_min_utxo = match cfg.force_min_utxo {
+        Some(b) => b,
+        None => matches!(cfg.profile, Profile::Fee | Profile::Rich) && t.chance(1, 3),
+    };
     let named: Vec<String> = if use_min_utxo { out_names.clone() } else { vec![] };
 
     let nin = match cfg.profile {
@@ -602,8 +609,9 @@ fn gen_tx(t: &mut Tape, cfg: &GenCfg, p: &mut Program, k: usize) -> TxSpec {
     // directives that move value
     let mut withdrawn: Vec<Q> = vec![];
     let mut donated: Vec<Q> = vec![];
+    let mut published: Vec<Q> = vec![];
     if cfg.profile == Profile::Rich || cfg.profile == Profile::Boundary {
-        if t.chance(1, 6) {
+        if t.chance(1, if cfg.rich_directives { 2 } else { 6 }) {
             let q = small_q(t, &mut params, "w");
             withdrawn.push(q.clone());
             tx.directives.push(Directive::Withdrawal {
@@ -619,7 +627,8 @@ fn gen_tx(t: &mut Tape, cfg: &GenCfg, p: &mut Program, k: usize) -> TxSpec {
         }
     }
     if cfg.profile == Profile::Rich {
-        if t.chance(1, 8) {
+        let (wn, wd) = if cfg.rich_directives { (1, 2) } else { (1, 8) };
+        if t.chance(wn, wd) {
             tx.directives.push(Directive::PlutusWitness {
                 version: *t.pick(&[3u8, 2, 1]),
                 script: hex::decode("5101010023259800a518a4d136564004ae69").unwrap(),
@@ -628,10 +637,19 @@ fn gen_tx(t: &mut Tape, cfg: &GenCfg, p: &mut Program, k: usize) -> TxSpec {
         if t.chance(1, 10) {
             tx.directives.push(Directive::NativeWitness);
         }
-        if t.chance(1, 10) && p.parties.iter().all(|x| x.addr.len() == 57) {
+        if t.chance(wn, wd + 2) && p.parties.iter().all(|x| x.addr.len() == 57) {
             tx.directives.push(Directive::VoteDeleg {
                 drep: vec![0x77; 28],
                 stake: t.index(np),
+            });
+        }
+        if t.chance(wn, wd + 1) {
+            let q = Q::Lit(*t.pick(&[2_000_000i128, 1_500_000, 3_000_000]));
+            published.push(q.clone());
+            tx.directives.push(Directive::Publish {
+                to: t.index(np),
+                amount: q,
+                version: *t.pick(&[Some(3u8), None, Some(2), Some(1)]),
             });
         }
     }
@@ -676,7 +694,7 @@ fn gen_tx(t: &mut Tape, cfg: &GenCfg, p: &mut Program, k: usize) -> TxSpec {
         change.push((true, Term::Tok(b.tok, b.q.clone())));
     }
     change.extend(spent);
-    for q in &donated {
+    for q in donated.iter().chain(published.iter()) {
         change.push((true, Term::Ada(q.clone())));
     }
     // `fees` position varies (left-assoc chains)
